@@ -1,4 +1,5 @@
 CONSTANTS Conns <- C4
+  Dpid <- DpidDup
   I = 2
   TO = 1
   Late = 3
